@@ -292,6 +292,83 @@ def detach_unit(plan):
     plan.assumptions.append("C05 detach: `Value::clone()` on a data variant clones the Rc and therefore shares the cell (definition of Rc::clone); `reference.borrow()` is modelled as a plain dereference")
 
 
+TUPLE_MODEL = """
+// model of what tuple_destructure touches: the names to define (their hashes), the tuple's length, and the symbol table as
+// the set of defined names (its real insert/contains are the contracts of C05.SymbolTable.*)
+pub struct Symbols { pub defined: Ghost<Set<u64>> }
+impl Symbols {
+  #[verifier::external_body] pub fn contains(&self, id: u64) -> (r: bool) ensures r == self.defined@.contains(id) { unimplemented!() }
+  #[verifier::external_body] pub fn insert(&mut self, id: u64) ensures final(self).defined@ == old(self).defined@.insert(id) { unimplemented!() }
+  #[verifier::external_body] pub fn dict_insert(&mut self, id: u64) ensures final(self).defined@ == old(self).defined@ { unimplemented!() }
+}
+pub struct Var { pub id: u64 }
+impl Var { pub fn hash(&self) -> (r: u64) ensures r == self.id { self.id } }
+#[verifier::external_body] pub fn vars_get(vars: &Vec<Var>, i: usize) -> (o: Option<&Var>)
+  ensures i < vars@.len() ==> o == Some(&vars@[i as int]), i >= vars@.len() ==> o.is_none() { vars.get(i) }
+pub fn tuple_get(i: usize, tpl_len: usize) -> (o: Option<()>) ensures o.is_some() == (i < tpl_len) { if i < tpl_len { Some(()) } else { None } }
+"""
+
+
+def tuple_unit(plan):
+    """(F) the statements of `tuple_destructure` (src/interpreter/src/statements.rs) after the symbol table is borrowed, verbatim except:
+    `return Err(..)` -> `return None`, `Ok(source)` -> `Some(())`, `tpl_dstrct.vars` -> the parameter `vars`, `tpl.borrow().size()` ->
+    `tpl_len`, `tpl.borrow().get(i)` -> `tuple_get(i, tpl_len)`, `for var in vars.iter()` / `.iter().enumerate()` -> index loops,
+    `symbols_brrw.insert(id, element.clone(), true)` -> `symbols_brrw.insert(id)`, the dictionary insert -> a no-op on the set of names.
+    Contract: a failing destructure leaves the set of defined names exactly as before."""
+    from vlib import VerusUnit, find_code, match_brace
+    name = "C05.verus.tuple_destructure.failure_defines_nothing"
+    ob = plan.ob(name, "verus", "proved", functions=["tuple_destructure (statements after the symbol table is borrowed)"],
+                 what="if `(a, b, ..) := t` fails (too many names, a name already defined) the set of defined names is exactly as before; if it succeeds exactly the listed names are added")
+    text = read_repo("src/interpreter/src/statements.rs")
+    sig, body = extract_fn(text, "tuple_destructure")
+    a = find_code(body, r"let\s+mut\s+symbols_brrw\s*=\s*symbols\.borrow_mut\(\)\s*;")
+    if not a:
+        raise AnchorLost("tuple_destructure: `let mut symbols_brrw = symbols.borrow_mut();` not found")
+    b = re.sub(r"//[^\n]*", "", body[a.end():body.rindex("}")])
+    # return Err(..) -> return None
+    while True:
+        m = re.search(r"return\s+Err\s*\(", b)
+        if not m:
+            break
+        e = match_brace(b, m.end() - 1, "(", ")")
+        k = e
+        while b[k] in " \t\r\n":
+            k += 1
+        b = b[:m.start()] + "return None" + b[k:]
+    b, n0 = re.subn(r"\bOk\(source\)", "Some(())", b)
+    b = re.sub(r"tpl_dstrct\.vars\.get\(", "vars_get(vars, ", b)
+    b = b.replace("tpl.borrow().size()", "tpl_len")
+    b = re.sub(r"tpl\.borrow\(\)\.get\((\w+)\)", r"tuple_get(\1, tpl_len)", b)
+    b = re.sub(r"tpl_dstrct\.vars\.len\(\)", "vars.len()", b)
+    b = re.sub(r"tpl_dstrct\.vars\[(\w+)\]", r"vars[\1]", b)
+    b, n2 = re.subn(r"for\s+\((\w+),\s*var\)\s+in\s+tpl_dstrct\.vars\.iter\(\)\.enumerate\(\)\s*\{", r"for \1 in 0..vars.len() { let var = &vars[\1];", b)
+    b = re.sub(r"symbols_brrw\.insert\((\w+),\s*[^;]*\);", r"symbols_brrw.insert(\1);", b)
+    b = re.sub(r"symbols_brrw\.dictionary\.borrow_mut\(\)\.insert\((\w+),\s*[^;]*\);", r"symbols_brrw.dict_insert(\1);", b)
+    b = re.sub(r"if\s+let\s+Some\(element\)\s*=", "if let Some(_element) =", b)
+    if n0 != 1 or n2 != 1 or "tpl_dstrct" in b or "Err(" in b:
+        raise AnchorLost("tuple_destructure no longer has the expected shape")
+    from units import vmat
+    loops = vlib.find_all_code(b, r"\bfor\b")
+    FRESH = "forall|j: int| 0 <= j < %s ==> !old(symbols_brrw).defined@.contains(#[trigger] vars@[j].id)"
+    DIST = "forall|a_: int, b_: int| 0 <= a_ < b_ < %s ==> #[trigger] vars@[a_].id != #[trigger] vars@[b_].id"
+    ADDED = "forall|p: u64| symbols_brrw.defined@.contains(p) <==> (old(symbols_brrw).defined@.contains(p) || exists|j: int| 0 <= j < i && #[trigger] vars@[j].id == p)"
+    if len(loops) == 3:       # pre-check (names, then earlier names of the same pattern), then the inserting loop
+        specs = ["    invariant symbols_brrw.defined@ == old(symbols_brrw).defined@, " + FRESH % "k" + ", " + DIST % "k" + ",",
+                 "      invariant symbols_brrw.defined@ == old(symbols_brrw).defined@, k < vars@.len(), id == vars@[k as int].id, forall|a_: int| 0 <= a_ < j ==> #[trigger] vars@[a_].id != id,",
+                 "    invariant vars@.len() <= tpl_len, " + FRESH % "vars@.len()" + ", " + DIST % "vars@.len()" + ", " + ADDED + ","]
+    elif len(loops) == 1:     # no pre-check at all (the pinned code): the contract cannot hold, the invariant says what is true
+        specs = ["    invariant " + ADDED + ","]
+    else:
+        raise AnchorLost("tuple_destructure: expected the pre-check loops and the inserting loop, found %d loops" % len(loops))
+    b = vmat.inject(b, specs)
+    fn = ("fn tuple_destructure_names(vars: &Vec<Var>, tpl_len: usize, symbols_brrw: &mut Symbols) -> (res: Option<()>)\n"
+          "  ensures res.is_none() ==> final(symbols_brrw).defined@ == old(symbols_brrw).defined@,\n"
+          "    res.is_some() ==> (forall|p: u64| final(symbols_brrw).defined@.contains(p) <==> (old(symbols_brrw).defined@.contains(p) || exists|j: int| 0 <= j < vars@.len() && #[trigger] vars@[j].id == p)),\n{\n"
+          + b + "\n}\n")
+    plan.verus.append(VerusUnit("c05_tuple", vlib.verus_file([TUPLE_MODEL, fn, vlib.verus_canary("canary_tuple", "x: u64", [])]), {"tuple_destructure_names": name}, ["canary_tuple"]))
+    plan.dropped.append(tuple_unit.__doc__.strip())
+
+
 def assign_unit(plan):
     """(X) `Assign<T>::solve` (src/interpreter/src/stdlib/assign/mod.rs): the two pointer bindings `self.source.as_ptr()` /
     `self.sink.as_mut_ptr()` become the parameters `source_ptr: &u64`, `sink_ptr: &mut u64`, `unsafe { }` is stripped, the statement
@@ -344,6 +421,10 @@ def plan(plan, tier, seed):
         assign_unit(plan)
     except Exception as e:
         plan.anchor_errors.append(("C05.verus.Assign.solve", repr(e)))
+    try:
+        tuple_unit(plan)
+    except Exception as e:
+        plan.anchor_errors.append(("C05.verus.tuple_destructure.failure_defines_nothing", repr(e)))
     try:
         detach_unit(plan)
     except Exception as e:
